@@ -74,6 +74,8 @@ void vf_file(const char *name, const char *content)
 	if (!fp) { printf("HARNESS-FAIL cannot create %s\n", name); exit(6); }
 	fputs(content, fp); fclose(fp);
 }
+#include <sys/stat.h>
+void vf_unwritable(const char *name) { remove(name); mkdir(name, 0755); }   /* a directory cannot be opened as a file */
 #ifndef VF_NO_CXX
 long vf_stream_content_cxx(void *is, char *buf, long cap);   /* rt/vf_native_cxx.cpp */
 long vf_stream_content(void *is, char *buf, long cap) { return vf_stream_content_cxx(is, buf, cap); }
